@@ -168,8 +168,39 @@ fn forced(i: usize) -> Case {
 	Case { m, raw, in_frame, newer: false }
 }
 
+/// A replay whose raw element is 2 GiB / ~4 GiB long because of tens of thousands of maximal unknown events
+/// (generated on the fly by `readers::VirtualReplay`, never materialised): parsed in full and with
+/// skip-frames (+hash), it must give the game of the same replay without the unknown events.
+const VIRTUAL: [(u64, bool, bool); 6] = [(32_769, false, false), (32_769, true, false), (32_769, true, true), (65_000, true, false), (32_768, false, true), (65_000, false, false)];
+fn virtual_case(ctx: &Ctx, i: usize, counting: bool) -> Result<(), Fail> {
+	let (count, skip, hash) = VIRTUAL[i % VIRTUAL.len()];
+	let m = crate::gen::simple_model([(3, 16, 0), (0, 1, 0), (2, 2, 0)][i % 3], &[(0, false), (2, i % 2 == 0)], 3, i as u64 + 31, crate::gen::Pattern::Random, 1 + (i % 2) as u8, true);
+	if counting {
+		ctx.eval();
+		ctx.class("virtual_replay_2GiB+");
+		ctx.nontrivial(rt::hash_bytes(&[i as u8, 0x56]));
+		ctx.sample_k("virtual", 3, || json!({"unknown_events_of_65535_bytes": count, "raw_element_bytes": count * 65536, "skip_frames": skip, "compute_hash": hash, "model": m.summary()}));
+	}
+	let fail = |sig: &str, msg: String| Fail::new(format!("op=fwdcompat virtual {}", sig), format!("replay with {} unknown events of 65535 bytes (raw element of {} bytes), skip_frames={}, compute_hash={}: {}", count, count * 65536, skip, hash, msg)).with_detail(json!({"i": i}));
+	let plain = m.encode();
+	let g0 = rt::slp_read(&plain, skip, false).expect_ok("slippi::read(plain)")?;
+	let mut r = crate::readers::VirtualReplay::new(&m, count);
+	let o = rt::slp_opts(skip, hash);
+	let g = match rt::guard(|| peppi::io::slippi::read(&mut r, Some(&o))) {
+		rt::Out::Ok(g) => g,
+		rt::Out::Err(e) => return Err(fail("read_err", format!("rejected: {}", e))),
+		rt::Out::Panic(p) => return Err(fail(&format!("panic~{}", rt::panic_site(&p)), p)),
+	};
+	diff_games(&g, &g0, &CmpOpts { frames: true, hash: false, quirks: true }).map_err(|e| fail("differs_from_plain", e))?;
+	if hash != g.hash.is_some() {
+		return Err(fail("hash_presence", format!("hash {:?}", g.hash)));
+	}
+	Ok(())
+}
+
 pub fn case(ctx: &Ctx, kind: &str, params: &Value, counting: bool) -> Result<(), Fail> {
 	match kind {
+		"virtual" => virtual_case(ctx, params["i"].as_u64().unwrap_or(0) as usize, counting),
 		"forced" => check(ctx, &forced(params["i"].as_u64().unwrap_or(0) as usize), "forced", counting),
 		_ => check(ctx, &gen_case(&dna_param(params), &cfg_for(ctx)), "dna", counting),
 	}
@@ -180,6 +211,9 @@ pub fn run(ctx: &Ctx) -> usize {
 	ctx.assume("quirk flags are compared only in (a): with a newer version the duplicate-Game-End heuristic is a round-trip aid, not a replay field");
 	let mut violations = 0;
 	if run_enum(ctx, "forced", 4 * ctx.n(60, 240), |i| json!({ "i": i }), |i| check(ctx, &forced(i), "forced", true)).is_some() {
+		violations += 1;
+	}
+	if violations == 0 && run_enum(ctx, "virtual", ctx.n(VIRTUAL.len(), 3 * VIRTUAL.len()), |i| json!({ "i": i }), |i| virtual_case(ctx, i, true)).is_some() {
 		violations += 1;
 	}
 	let cfg = cfg_for(ctx);
